@@ -122,3 +122,10 @@ Example c11_example_with_callback :
   map (flat_map enc_gout) (snd (grun g_init [GAddCallback; GReq; GBatch [UReset 11; ULost true]; GReq]))
   = [[]; [1]; [4; 6; 5; 2; 0]; [2; 3]]%Z.
 Proof. vm_compute. reflexivity. Qed.
+
+(* ---- the tie to the source text: Gateway.reset_received / connection_lost / eof_received as emitted
+   from their Python AST on every run (gen/GenGatewayFn.v) are the model's [handle_up] *)
+Require Import BV.gen.GenGatewayFn BV.proofs.GatewaySrc_proofs.
+Theorem c11_source_upcalls : forall st u,
+  same_as (fst (handle_up st u)) (snd (handle_up st u)) st (py_up (gabs st) u).
+Proof. exact src_handle_up. Qed.
